@@ -38,6 +38,9 @@ def jobs(tier, seed):
     for hd in hdrs:
         J.append(dict(name="bec2:%s" % ("+".join(hd) or "noblocks"), kind="bec2", blocks=hd, shape=[shapes.comp(3, [(0xC3, 1)]), shapes.comp(17, [(0xC2, 1)], enc=True)], timeout=900, cost=300))
     J.append(dict(name="history:rewrite-after-tag-edit", kind="rewrite", shape=[shapes.comp(3, [(0xC3, 1)]), shapes.comp(17, [(0xC1, 1)])], timeout=900, cost=150))
+    # the component list may hold the same object (or equal-valued copies) at several positions
+    J.append(dict(name="bf3:same-object-twice", kind="bf3", shape=[shapes.comp(3, [(0xC3, 1)]), shapes.comp(17, [(0xC1, 1)])], order=[0, 1, 0], timeout=900, cost=200))
+    J.append(dict(name="bf3:same-object-adjacent", kind="bf3", shape=[shapes.comp(17, [(0xC1, 1)], enc=True)], order=[0, 0], timeout=900, cost=200))
     J.append(dict(name="bf3:twin", kind="bf3", shape=[shapes.comp(17, [(0xC1, 1)])], twin=True, expect="violated", timeout=300))
     J.append(dict(name="bf3:model-sanity-iv0", kind="bf3", shape=[shapes.comp(17, [(0xC1, 1)]), shapes.comp(2, [])], wrong_model="iv0", expect="violated", timeout=300))
     for lemma in ("T1-lines", "T2-alphabet", "T5-io-literals"):
@@ -142,6 +145,8 @@ def run_job(job):
             off = sym.sym_int("off", 0, 65537)
             vals = dict(key=key, off=off)
             comps, model = build(vals)
+            if job.get("order"):
+                comps, model = [comps[i] for i in job["order"]], [model[i] for i in job["order"]]
             runner.track(vals)
             real = bf.Bf3File({}, comps).to_binary(off, key)
             want = model_bf3(stubs, model, off, key, wrong=job.get("wrong_model"))
@@ -249,6 +254,8 @@ def replay(job):
         return dict(reproduced=second != want, signature="C03:layout", detail="second write after adding a tag: payload offsets %s, documented layout %s" % (second[9:14].hex(), want[9:14].hex()))
     if job["kind"] == "bf3":
         off = w.get("off", 0)
+        if job.get("order"):
+            comps, model = [comps[i] for i in job["order"]], [model[i] for i in job["order"]]
         real = bf.Bf3File({}, comps).to_binary(off, key)
         want = model_bf3(RealStubs, model, off, key)
         return dict(reproduced=real != want, signature="C03:layout", detail="offset %d: real %s... model %s..." % (off, real.hex()[:160], want.hex()[:160]))
